@@ -5,6 +5,7 @@ import (
 	"crypto/sha256"
 	"encoding/hex"
 	"go/ast"
+	"go/constant"
 	"go/printer"
 	"go/token"
 	"go/types"
@@ -226,4 +227,60 @@ func ixBodies(pkgs map[string]*pkgInfo) {
 	}
 	add("cors_ixBodies", ": List Bytes := "+leanBytesList(out),
 		"fingerprints (SHA-256, first 12 bytes) of the text of the functions modelled at index level (Model/Ix.lean): pkg.func|hash of `signature body`, comments dropped, white space normalised. The texts:\n"+strings.Join(texts, "\n"))
+}
+
+// caseMapSites: every call, in the non-test code, of a function whose model is the ASCII byte map although the
+// library function behind it (strings.ToLower / strings.ToUpper) maps Unicode: util.ByteLowercase,
+// util.ByteUppercase, methods.Normalize, methods.IsForbidden (which upper-cases its argument), strings.ToLower,
+// strings.ToUpper — as "pkg.func|call|guards" (guardsOf), or "pkg.func|call|const=<value>" when the argument is a
+// constant.  The model is only right on ASCII input; the audited list (Props/C04.lean) records, per site, the
+// validity test that dominates it.  A new call site, a dropped or reordered test changes the fact.
+func caseMapSites(pkgs map[string]*pkgInfo) {
+	watched := map[string]bool{
+		"util.ByteLowercase": true, "util.ByteUppercase": true, "methods.Normalize": true, "methods.IsForbidden": true,
+		"strings.ToLower": true, "strings.ToUpper": true, "strings.EqualFold": true, "strings.Title": true,
+	}
+	var sites, consts []string
+	for _, p := range pkgs {
+		for _, f := range p.files {
+			var stack []ast.Node
+			ast.Inspect(f, func(n ast.Node) bool {
+				if n == nil {
+					stack = stack[:len(stack)-1]
+					return true
+				}
+				stack = append(stack, n)
+				call, ok := n.(*ast.CallExpr)
+				if !ok {
+					return true
+				}
+				var name string
+				switch fn := call.Fun.(type) {
+				case *ast.SelectorExpr:
+					if id, ok := fn.X.(*ast.Ident); ok {
+						name = id.Name + "." + fn.Sel.Name
+					}
+				case *ast.Ident:
+					name = p.name + "." + fn.Name
+				}
+				if !watched[name] || len(call.Args) == 0 {
+					return true
+				}
+				where := p.name + "." + enclosingFunc(f, n.Pos())
+				if tv, ok := p.info.Types[call.Args[0]]; ok && tv.Value != nil && tv.Value.Kind() == constant.String {
+					v := constant.StringVal(tv.Value)
+					consts = append(consts, v)
+					sites = append(sites, where+"|"+exprText(n)+"|const="+v)
+					return true
+				}
+				sites = append(sites, where+"|"+exprText(n)+"|"+strings.Join(guardsOf(stack), " ; "))
+				return true
+			})
+		}
+	}
+	sort.Strings(sites)
+	sort.Strings(consts)
+	add("cors_caseMapSites", ": List Bytes := "+leanBytesList(sites),
+		"every call of a case-mapping function that the model treats as an ASCII byte map, with its dominating conditions or its constant argument: pkg.func|call|guards (sorted)")
+	add("cors_caseMapConstArgs", ": List Bytes := "+leanBytesList(consts), "the constant arguments of those calls (sorted)")
 }
